@@ -46,8 +46,8 @@ def main():
                     break
             assert cmdline, 'no build command in demo.c'
         else:
-            cmdline = 'sh _seed/demo.sh'
-        cmdline = re.sub(r'/tmp/mut/C\d+', wt, cmdline)
+            cmdline = 'bash _seed/demo.sh'
+        cmdline = re.sub(r'/tmp/mut\d*/C\d+', wt, cmdline)
         meta['demo_cmd'] = cmdline
         def demo_run():
             return run(cmdline, cwd=wt, shell=True, timeout=600)
